@@ -154,12 +154,12 @@ def _res_unwrap(m, a, c):
     raise Unsupported("Result::unwrap on %r" % (v,))
 
 
-@reg("std::option::Option::<T>::unwrap_or")
+@reg("std::option::Option::<T>::unwrap_or", "std::result::Result::<T, E>::unwrap_or")
 def _opt_unwrap_or(m, a, c):
     v = deref(a[0])
     if isinstance(v, Term):
         return Term("unwrap_or", v, a[1])
-    return v.fields["0"] if v.variant == "Some" else a[1]
+    return v.fields["0"] if v.variant in ("Some", "Ok") else a[1]
 
 
 @reg("std::option::Option::<T>::unwrap_or_else")
@@ -262,6 +262,10 @@ def _opt_ok_or_else(m, a, c):
 def _opt_as_ref(m, a, c):
     v = deref(a[0])
     if c.get("def", "").endswith("::take") and not isinstance(a[0], Term):
+        if isinstance(a[0], MutRef):
+            old = a[0].get()
+            a[0].set(NONE)
+            return old
         raise Unsupported("Option::take")
     return v
 
@@ -335,6 +339,8 @@ def _into(m, a, c):
         return v
     if isinstance(v, (int, bool)) and len(targs) >= 2 and targs[1] in INT_RANGES:
         return int(v)
+    if isinstance(v, int) and len(targs) >= 2 and targs[1] == "char" and targs[0] == "u8":
+        return chr(v)
     if isinstance(v, Term):
         return Term("into", v, targs[1] if len(targs) > 1 else "?")
     return NOT_HANDLED
@@ -348,6 +354,10 @@ def _from(m, a, c):
         return v
     if isinstance(v, (int, bool)) and targs and targs[0] in INT_RANGES:
         return int(v)
+    if isinstance(v, int) and len(targs) >= 2 and targs[0] == "char" and targs[1] == "u8":
+        return chr(v)
+    if isinstance(v, str) and len(v) == 1 and len(targs) >= 2 and targs[1] == "char" and targs[0] in INT_RANGES:
+        return ord(v)
     if isinstance(v, Term) and targs and targs[0] in INT_RANGES:
         return Term("into", v, targs[0])
     return NOT_HANDLED
@@ -618,7 +628,27 @@ def _vec_new(m, a, c):
         seed = m.vec_seed(m.facts.ty(m.cur_call_ty))
         if seed is not None:
             return PyVec(seed)
-    return PyVec()
+    v = PyVec()
+    if c.get("name") == "with_capacity" and isinstance(deref(a[0]), int):
+        CAPACITY[id(v)] = (v, deref(a[0]))
+    return v
+
+
+# requested capacities (model: with_capacity allocates exactly what was asked for, and the buffer
+# grows only when the length exceeds it); keyed by object identity, the value keeps the vec alive
+CAPACITY = {}
+
+
+@reg("std::vec::Vec::<T, A>::capacity")
+def _vec_capacity(m, a, c):
+    v = deref(a[0])
+    if not isinstance(v, PyVec):
+        raise Unsupported("capacity of %r" % (v,))
+    ent = CAPACITY.get(id(v))
+    req = ent[1] if ent and ent[0] is v else 0
+    if len(v.items) <= req:
+        return req
+    raise Unsupported("capacity after growth is unspecified")
 
 
 @reg("std::vec::Vec::<T, A>::push")
@@ -782,6 +812,18 @@ def _index(m, a, c):
             if lo > hi or hi > len(it):
                 raise Panic("slice index out of range")
             return PyVec(it[lo:hi])
+    if isinstance(v, str) and isinstance(i, Adt) and i.path.startswith("std::ops::Range"):
+        b = v.encode("utf-8")
+        lo = i.fields.get("start", 0)
+        hi = i.fields.get("end", len(b))
+        if i.path.endswith("RangeInclusive") or i.path.endswith("RangeToInclusive"):
+            hi += 1
+        if lo > hi or hi > len(b):
+            raise Panic("str slice index out of range")
+        for x in (lo, hi):
+            if x < len(b) and (b[x] & 0xC0) == 0x80:
+                raise Panic("str slice index not on a char boundary")
+        return b[lo:hi].decode("utf-8")
     return NOT_HANDLED
 
 
@@ -805,6 +847,8 @@ def _next(m, a, c):
     it = deref(a[0])
     if isinstance(it, Term):
         raise Unsupported("next() on symbolic iterator %r" % (it,))
+    if isinstance(it, Adt) and it.path in ("std::ops::RangeInclusive", "std::ops::Range"):
+        return _range_step(it, back=False)
     if not isinstance(it, PyIter):
         return NOT_HANDLED
     if it.pos >= len(it.items):
@@ -1308,3 +1352,458 @@ for _tr, _nm, _op in (("std::ops::Add", "add", "Add"), ("std::ops::Sub", "sub", 
                       ("std::ops::Div", "div", "Div"), ("std::ops::Rem", "rem", "Rem"),
                       ("std::ops::BitAnd", "bitand", "BitAnd"), ("std::ops::BitOr", "bitor", "BitOr")):
     TRAIT_TABLE[(_tr, _nm)] = _arith(_op)
+
+
+# ---- formatting: a recording Formatter ----------------------------------------------------------
+
+class PyFmt(object):
+    """core::fmt::Formatter modelled as a token recorder: str pieces and opaque Terms."""
+    __slots__ = ("out", "alternate")
+
+    def __init__(self, alternate=False):
+        self.out = []
+        self.alternate = alternate
+
+    def text(self):
+        return "".join(x if isinstance(x, str) else "<%r>" % (x,) for x in self.out)
+
+
+class FmtArgs(object):
+    __slots__ = ("template", "args")
+
+    def __init__(self, template, args):
+        self.template = template
+        self.args = args
+
+
+FMT_OK = Adt(RESULT, "Ok", {"0": ()})
+
+
+def fmt_value(m, kind, x, f):
+    """Display / Debug of x into PyFmt f; returns the Result value"""
+    x = deref(x)
+    if isinstance(x, str):
+        f.out.append(x if kind == "display" else '"%s"' % x)
+        return FMT_OK
+    if isinstance(x, bool):
+        f.out.append("true" if x else "false")
+        return FMT_OK
+    if isinstance(x, int):
+        f.out.append(str(x))
+        return FMT_OK
+    if isinstance(x, Term):
+        f.out.append(Term(kind, x) if kind != "display" else x)
+        return FMT_OK
+    if isinstance(x, Adt):
+        tr = "std::fmt::Display" if kind == "display" else "std::fmt::Debug"
+        for imp in m.facts.impls_of(trait=tr, self_adt=x.path):
+            if imp.get("derived"):
+                continue
+            for it in imp["items"]:
+                if it["name"] == "fmt" and it["path"] in m.facts.bodies:
+                    return m.call_path(it["path"], [x, f])
+    raise Unsupported("formatting (%s) of %r" % (kind, x))
+
+
+@reg("std::fmt::Formatter::<'a>::write_str")
+def _fmt_write_str(m, a, c):
+    f = deref(a[0])
+    s = deref(a[1])
+    if not isinstance(f, PyFmt):
+        raise Unsupported("write_str on %r" % (f,))
+    f.out.append(s)
+    return FMT_OK
+
+
+@reg("std::fmt::Formatter::<'a>::write_char")
+def _fmt_write_char(m, a, c):
+    f = deref(a[0])
+    f.out.append(deref(a[1]))
+    return FMT_OK
+
+
+@reg("std::fmt::Formatter::<'a>::alternate")
+def _fmt_alternate(m, a, c):
+    return deref(a[0]).alternate
+
+
+@reg("core::fmt::rt::Argument::<'_>::new_display")
+def _arg_display(m, a, c):
+    return ("display", deref(a[0]))
+
+
+@reg("core::fmt::rt::Argument::<'_>::new_debug")
+def _arg_debug(m, a, c):
+    return ("debug", deref(a[0]))
+
+
+@reg("core::fmt::rt::Argument::<'_>::new_lower_hex")
+def _arg_lhex(m, a, c):
+    return ("lower_hex", deref(a[0]))
+
+
+@reg("std::fmt::Arguments::<'a>::new")
+def _args_new(m, a, c):
+    tpl = deref(a[0])
+    args = deref(a[1])
+    if isinstance(tpl, PyVec):
+        tpl = tpl.items
+    if isinstance(args, PyVec):
+        args = args.items
+    return FmtArgs(list(tpl), list(args))
+
+
+@reg("std::fmt::Arguments::<'a>::from_str", "std::fmt::Arguments::<'a>::from_str_nonconst")
+def _args_from_str(m, a, c):
+    return FmtArgs(None, [deref(a[0])])
+
+
+def parse_template(tpl):
+    """-> list of ('lit', str) | ('arg', index|None, alternate)"""
+    out = []
+    i = 0
+    while True:
+        n = tpl[i]
+        i += 1
+        if n == 0:
+            return out
+        if n < 0x80:
+            out.append(("lit", bytes(tpl[i:i + n]).decode("utf-8")))
+            i += n
+        elif n == 0x80:
+            ln = tpl[i] | (tpl[i + 1] << 8)
+            i += 2
+            out.append(("lit", bytes(tpl[i:i + ln]).decode("utf-8")))
+            i += ln
+        else:
+            flags = 0
+            idx = None
+            if n & 1:
+                flags = tpl[i] | (tpl[i + 1] << 8) | (tpl[i + 2] << 16) | (tpl[i + 3] << 24)
+                i += 4
+            if n & 2:
+                i += 2
+            if n & 4:
+                i += 2
+            if n & 8:
+                idx = tpl[i] | (tpl[i + 1] << 8)
+                i += 2
+            if n & (16 | 32):
+                raise Unsupported("dynamic width/precision in format template")
+            # FormattingOptions flag bits: alternate is bit 23 (see core::fmt::flags)
+            out.append(("arg", idx, bool(flags & (1 << 23)), flags))
+
+
+@reg("std::fmt::Formatter::<'a>::write_fmt", "std::fmt::Write::write_fmt")
+def _fmt_write_fmt(m, a, c):
+    f = deref(a[0])
+    fa = deref(a[1])
+    if not isinstance(f, PyFmt) or not isinstance(fa, FmtArgs):
+        raise Unsupported("write_fmt(%r, %r)" % (f, fa))
+    if fa.template is None:
+        f.out.append(fa.args[0])
+        return FMT_OK
+    nxt = 0
+    for part in parse_template(fa.template):
+        if part[0] == "lit":
+            f.out.append(part[1])
+            continue
+        idx = part[1] if part[1] is not None else nxt
+        nxt = idx + 1
+        kind, val = fa.args[idx]
+        saved = f.alternate
+        f.alternate = part[2]
+        try:
+            r = fmt_value(m, kind, val, f)
+        finally:
+            f.alternate = saved
+        if is_res(r, "Err"):
+            return r
+    return FMT_OK
+
+
+def _fmt_trait(kind):
+    def h(m, a, c):
+        f = deref(a[1])
+        if not isinstance(f, PyFmt):
+            return NOT_HANDLED
+        x = deref(a[0])
+        if isinstance(x, Adt) and (c.get("resolved") or c.get("def")) in m.facts.bodies:
+            return NOT_HANDLED
+        return fmt_value(m, kind, x, f)
+    return h
+
+
+TRAIT_TABLE[("std::fmt::Display", "fmt")] = _fmt_trait("display")
+TRAIT_TABLE[("std::fmt::Debug", "fmt")] = _fmt_trait("debug")
+
+
+# ---- strings (Python str models &str and String) ----------------------------------------------
+
+def _s(v):
+    v = deref(v)
+    if not isinstance(v, str):
+        raise Unsupported("string operation on %r" % (v,))
+    return v
+
+
+class PyChar(str):
+    """a Rust char (distinct from a one-character str only for Debug output)"""
+    __slots__ = ()
+
+
+@reg("core::str::<impl str>::len", "std::string::String::len")
+def _str_len(m, a, c):
+    return len(_s(a[0]).encode("utf-8"))
+
+
+@reg("core::str::<impl str>::is_empty", "std::string::String::is_empty")
+def _str_is_empty(m, a, c):
+    return _s(a[0]) == ""
+
+
+@reg("core::str::<impl str>::bytes", "core::str::<impl str>::as_bytes")
+def _str_bytes(m, a, c):
+    b = list(_s(a[0]).encode("utf-8"))
+    return PyIter(b) if c.get("name") == "bytes" else PyVec(b)
+
+
+@reg("core::str::<impl str>::chars")
+def _str_chars(m, a, c):
+    return PyIter(list(_s(a[0])))
+
+
+@reg("core::str::<impl str>::char_indices")
+def _str_char_indices(m, a, c):
+    s = _s(a[0])
+    out, pos = [], 0
+    for ch in s:
+        out.append((pos, ch))
+        pos += len(ch.encode("utf-8"))
+    return PyIter(out)
+
+
+@reg("core::str::<impl str>::splitn")
+def _str_splitn(m, a, c):
+    return PyIter(_s(a[0]).split(_s(a[2]), deref(a[1]) - 1))
+
+
+@reg("core::str::<impl str>::split")
+def _str_split(m, a, c):
+    return PyIter(_s(a[0]).split(_s(a[1])))
+
+
+@reg("core::str::<impl str>::starts_with")
+def _str_starts_with(m, a, c):
+    return _s(a[0]).startswith(_s(a[1]))
+
+
+@reg("core::str::<impl str>::ends_with")
+def _str_ends_with(m, a, c):
+    return _s(a[0]).endswith(_s(a[1]))
+
+
+@reg("core::str::<impl str>::contains")
+def _str_contains(m, a, c):
+    return _s(a[1]) in _s(a[0])
+
+
+@reg("core::str::<impl str>::strip_prefix")
+def _str_strip_prefix(m, a, c):
+    s, p = _s(a[0]), _s(a[1])
+    return some(s[len(p):]) if s.startswith(p) else NONE
+
+
+@reg("core::str::<impl str>::strip_suffix")
+def _str_strip_suffix(m, a, c):
+    s, p = _s(a[0]), _s(a[1])
+    return some(s[:len(s) - len(p)]) if s.endswith(p) else NONE
+
+
+@reg("core::str::<impl str>::find")
+def _str_find(m, a, c):
+    s, p = _s(a[0]), deref(a[1])
+    if not isinstance(p, str):
+        raise Unsupported("str::find with a non-literal pattern")
+    i = s.find(p)
+    return some(len(s[:i].encode("utf-8"))) if i >= 0 else NONE
+
+
+@reg("core::str::<impl str>::rfind")
+def _str_rfind(m, a, c):
+    s, p = _s(a[0]), deref(a[1])
+    if not isinstance(p, str):
+        raise Unsupported("str::rfind with a non-literal pattern")
+    i = s.rfind(p)
+    return some(len(s[:i].encode("utf-8"))) if i >= 0 else NONE
+
+
+@reg("core::str::<impl str>::is_char_boundary")
+def _str_is_char_boundary(m, a, c):
+    b = _s(a[0]).encode("utf-8")
+    i = deref(a[1])
+    return i == len(b) or (i < len(b) and (b[i] & 0xC0) != 0x80)
+
+
+@reg("core::str::<impl str>::is_ascii")
+def _str_is_ascii(m, a, c):
+    return all(ord(ch) < 128 for ch in _s(a[0]))
+
+
+@reg("core::str::<impl str>::to_owned", "alloc::str::<impl str>::to_owned",
+     "alloc::str::<impl std::borrow::ToOwned for str>::to_owned", "std::string::String::as_str")
+def _str_to_owned(m, a, c):
+    return _s(a[0])
+
+
+@reg("core::str::<impl str>::parse")
+def _str_parse(m, a, c):
+    return _from_str_prim(m, a, c)
+
+
+def _from_str_prim(m, a, c):
+    s = _s(a[0])
+    targ = (c.get("targs") or [c.get("self_ty")])[0] or ""
+    st = c.get("self_ty") or targ
+    for ty in ("u8", "u16", "u32", "u64", "usize"):
+        if st == ty or targ == ty:
+            body = s[1:] if s.startswith("+") else s
+            if body and all("0" <= ch <= "9" for ch in body) and int(body) <= INT_RANGES[ty][1]:
+                return ok(int(body))
+            return err(Term("ParseIntError", s))
+    if st in ("std::string::String",) or targ in ("std::string::String",):
+        return ok(s)
+    if getattr(m, "text_keys", False) and not c.get("resolved"):
+        # generic key / hash types are modelled by their text (Display and FromStr assumed inverse)
+        return ok(s)
+    return NOT_HANDLED
+
+
+TRAIT_TABLE[("std::str::FromStr", "from_str")] = _from_str_prim
+
+
+@reg("std::char::convert::<impl std::convert::From<char> for u32>::from")
+def _char_to_u32(m, a, c):
+    return ord(_s(a[0]))
+
+
+@reg("std::ops::Range::<Idx>::contains", "std::ops::RangeInclusive::<Idx>::contains")
+def _range_contains(m, a, c):
+    r, x = deref(a[0]), deref(a[1])
+    lo, hi = r.fields["start"], r.fields["end"]
+    if isinstance(x, str):
+        lo, hi, x = ord(lo), ord(hi), ord(x)
+    if r.path.endswith("RangeInclusive"):
+        return lo <= x <= hi
+    return lo <= x < hi
+
+
+def _try_from(m, a, c):
+    v = deref(a[0])
+    targs = c.get("targs") or []
+    tgt = targs[0] if targs else c.get("self_ty")
+    if isinstance(v, int) and not isinstance(v, bool) and tgt in INT_RANGES:
+        lo, hi = INT_RANGES[tgt]
+        if lo <= v <= hi:
+            return ok(v)
+        return err(Term("TryFromIntError", v))
+    return NOT_HANDLED
+
+
+TRAIT_TABLE[("std::convert::TryFrom", "try_from")] = _try_from
+
+
+def _range_step(r, back):
+    lo, hi = r.fields["start"], r.fields["end"]
+    if not (isinstance(lo, int) and isinstance(hi, int)):
+        raise Unsupported("stepping a symbolic range")
+    if r.path.endswith("RangeInclusive"):
+        if r.fields.get("exhausted") or lo > hi:
+            return NONE
+        if lo == hi:
+            r.fields["exhausted"] = True
+            return some(lo)
+        if back:
+            r.fields["end"] = hi - 1
+            return some(hi)
+        r.fields["start"] = lo + 1
+        return some(lo)
+    if lo >= hi:
+        return NONE
+    if back:
+        r.fields["end"] = hi - 1
+        return some(hi - 1)
+    r.fields["start"] = lo + 1
+    return some(lo)
+
+
+@treg("std::iter::DoubleEndedIterator", "next_back", first=True)
+def _next_back(m, a, c):
+    it = deref(a[0])
+    if isinstance(it, Adt) and it.path in ("std::ops::RangeInclusive", "std::ops::Range"):
+        return _range_step(it, back=True)
+    if isinstance(it, PyIter):
+        if it.pos >= len(it.items):
+            return NONE
+        return some(it.items.pop())
+    return NOT_HANDLED
+
+
+@reg("std::ops::RangeInclusive::<Idx>::is_empty")
+def _rangeincl_is_empty(m, a, c):
+    r = deref(a[0])
+    return bool(r.fields.get("exhausted")) or r.fields["start"] > r.fields["end"]
+
+
+@reg("std::ops::RangeInclusive::<Idx>::start")
+def _rangeincl_start(m, a, c):
+    return deref(a[0]).fields["start"]
+
+
+@reg("std::ops::RangeInclusive::<Idx>::end")
+def _rangeincl_end(m, a, c):
+    return deref(a[0]).fields["end"]
+
+
+def _bounds_of(r):
+    """(lo inclusive | None, hi inclusive | None) of a std::ops range value"""
+    p = r.path
+    lo = r.fields.get("start")
+    hi = r.fields.get("end")
+    if p.endswith("RangeFull"):
+        return None, None
+    if hi is not None and not (p.endswith("RangeInclusive") or p.endswith("RangeToInclusive")):
+        hi = hi - 1
+    return lo, hi
+
+
+@treg("std::ops::RangeBounds", "contains", first=True)
+def _rangebounds_contains(m, a, c):
+    r, x = deref(a[0]), deref(a[1])
+    if not (isinstance(r, Adt) and r.path.startswith("std::ops::Range")) or is_sym(x):
+        return NOT_HANDLED
+    lo, hi = _bounds_of(r)
+    if isinstance(x, str):
+        x = ord(x)
+        lo = ord(lo) if isinstance(lo, str) else lo
+        hi = ord(hi) if isinstance(hi, str) else hi
+    return (lo is None or lo <= x) and (hi is None or x <= hi)
+
+
+def _bound(v, incl=True):
+    if v is None:
+        return Adt("std::ops::Bound", "Unbounded", {})
+    return Adt("std::ops::Bound", "Included" if incl else "Excluded", {"0": v})
+
+
+@treg("std::ops::RangeBounds", "start_bound", first=True)
+def _start_bound(m, a, c):
+    r = deref(a[0])
+    return _bound(r.fields.get("start"))
+
+
+@treg("std::ops::RangeBounds", "end_bound", first=True)
+def _end_bound(m, a, c):
+    r = deref(a[0])
+    hi = r.fields.get("end")
+    return _bound(hi, r.path.endswith("RangeInclusive") or r.path.endswith("RangeToInclusive"))
